@@ -789,6 +789,25 @@ def find_closures(toks, lo, hi):
     return out
 
 
+def unclaimed_items(sources, claimed):
+    """top-level items of the extracted source files that no contract selects: {file: [labels]}.  `use` / `mod` /
+    `extern` declarations and macro definitions are not items of interest."""
+    out = {}
+    got = set(claimed)
+    for f, src in sources.items():
+        if src is None:
+            continue
+        labels = []
+        for it in src.items:
+            if it.kind in ('use', 'mod', 'extern', 'macro_rules'):
+                continue
+            if (f, it.lo) in got:
+                continue
+            labels.append(it.label())
+        out[f] = sorted(labels)
+    return out
+
+
 def body_hash(toks, fn):
     if not fn.body:
         return None
@@ -848,6 +867,8 @@ class Extracted:
         self.dropped = []
         self.renamed = {}
         self.items = []       # (item id, expected token texts)
+        self.claimed = []     # (file, token index of the item start) of every selected source item
+        self.derives = {}     # 'file :: item label' -> sorted derive arguments that T dropped
 
 
 def gen_mod(mod, sources):
@@ -888,6 +909,19 @@ def gen_mod(mod, sources):
             it.members = [m for m in it.members if not (m.kind == 'fn' and m.name in sel.drop_fns)]
             for d in sel.drop_fns:
                 ex.dropped.append(('member', '%s::%s (not extracted)' % (sel.anchor, d)))
+        orig_it = src.find(sel.anchor, sel.inside)
+        ex.claimed.append((mod.file, orig_it.lo))
+        dv = []
+        for a in orig_it.attrs:
+            txt = ''.join(t.text for t in src.toks[a[0]:a[1]])
+            mm = re.match(r'#\[derive\((.*)\)\]$', txt)
+            if mm:
+                dv += [x.strip() for x in mm.group(1).split(',') if x.strip()]
+            mm = re.match(r'#\[cfg_attr\((.*?),derive\((.*)\)\)\]$', txt)
+            if mm:
+                dv += ['%s if %s' % (x.strip(), mm.group(1)) for x in mm.group(2).split(',') if x.strip()]
+        if orig_it.kind in ('struct', 'enum'):
+            ex.derives['%s :: %s' % (mod.file, orig_it.label())] = sorted(dv)
         tr = transform(src.toks, it, hoist_names)
         ex.dropped += tr.dropped
         for k, v in tr.renamed.items():
